@@ -123,3 +123,52 @@ def coqchk(pid, timeout=3000):
     os.makedirs(CACHE, exist_ok=True)
     json.dump(res, open(cache, "w"))
     return res
+
+
+GOLDEN_PROPS = {"balance": ["C03"], "csv": ["C13"], "print": ["C14"], "summary": ["C02", "C07"], "register": ["C02"], "report": ["C07"]}
+
+def golden():
+    """T3: the repository's own expected-output files, checked against the model inside Coq (vm_compute); regenerated from
+    /repo on every run. Returns dict(results={asset: bool}, ok=bool, log=str)."""
+    import re, importlib.util
+    spec = importlib.util.spec_from_file_location("gen_golden", os.path.join(VERIF, "tools", "gen_golden.py"))
+    gg = importlib.util.module_from_spec(spec); spec.loader.exec_module(gg)
+    out = os.path.join(VERIF, "coq", "theories", "Gen", "Golden.v")
+    os.makedirs(os.path.dirname(out), exist_ok=True)
+    gg.main(out)
+    h = hashlib.sha256(open(out, "rb").read() + coq_hash().encode()).hexdigest()[:20]
+    cache = os.path.join(CACHE, "golden-%s.json" % h)
+    import json
+    if os.path.exists(cache): return json.load(open(cache))
+    p = subprocess.run(["coqc", "-Q", "theories", "HP", "-w", "-notation-overridden", "theories/Gen/Golden.v"], cwd=os.path.join(VERIF, "coq"),
+                       stdout=subprocess.PIPE, stderr=subprocess.STDOUT, timeout=900)
+    txt = p.stdout.decode(errors="replace")
+    vals = re.findall(r"=\s*(true|false)\s*:\s*bool", txt)
+    names = [a for a, _, _ in gg.CASES if os.path.exists(os.path.join(gg.ASSETS, a))]
+    res = dict(results={a: (v == "true") for a, v in zip(names, vals)}, ok=(p.returncode == 0 and len(vals) == len(names)), log=txt[-1500:] if p.returncode else "")
+    for f in os.listdir(CACHE):
+        if f.startswith("golden-"): os.remove(os.path.join(CACHE, f))
+    json.dump(res, open(cache, "w"))
+    return res
+
+
+def source_facts():
+    """T2: constants read from the Go sources, compared with the model's inside Coq. Returns dict(results={name: bool}, missing=[...], props={name: [...]})."""
+    import re, importlib.util, json
+    spec = importlib.util.spec_from_file_location("gen_sourcefacts", os.path.join(VERIF, "tools", "gen_sourcefacts.py"))
+    gs = importlib.util.module_from_spec(spec); spec.loader.exec_module(gs)
+    out = os.path.join(VERIF, "coq", "theories", "Gen", "SourceFacts.v")
+    os.makedirs(os.path.dirname(out), exist_ok=True)
+    found = gs.main(out)
+    h = hashlib.sha256(open(out, "rb").read() + coq_hash().encode()).hexdigest()[:20]
+    cache = os.path.join(CACHE, "facts-%s.json" % h)
+    if os.path.exists(cache): return json.load(open(cache))
+    p = subprocess.run(["coqc", "-Q", "theories", "HP", "-w", "-notation-overridden", "theories/Gen/SourceFacts.v"], cwd=os.path.join(VERIF, "coq"),
+                       stdout=subprocess.PIPE, stderr=subprocess.STDOUT, timeout=600)
+    vals = re.findall(r"=\s*(true|false)\s*:\s*bool", p.stdout.decode(errors="replace"))
+    res = dict(results={n: (v == "true") for n, v in zip(found, vals)}, missing=[f[0] for f in gs.FACTS if f[0] not in found],
+               props={f[0]: f[3] for f in gs.FACTS}, ok=(p.returncode == 0 and len(vals) == len(found)))
+    for f in os.listdir(CACHE):
+        if f.startswith("facts-"): os.remove(os.path.join(CACHE, f))
+    json.dump(res, open(cache, "w"))
+    return res
